@@ -866,6 +866,9 @@ def d5_16(ctx):
         ("two symbols, more to come", minver, INS, [(5, "Counter", 0x00C4, 1, 2, 3, (0, 0, 0), 0), (9, "Arr", 0x20C4, 4, 5, 6, (10, 0, 0), 2)], 10),
         ("last reply", minver, SUCCESS, [(12, "Flags", 0x00C1, 7, 8, 9, (0, 0, 0), 0)], -1),
         ("firmware without external access", minver - 1, SUCCESS, [(3, "Old", 0x00C3, 1, 1, 1, (2, 3, 4), None)], -1),
+        ("shortest records (one-character names), old firmware, the short one last", minver - 1, SUCCESS, [(3, "Old", 0x00C3, 1, 1, 1, (0, 0, 0), None), (4, "N", 0x00C4, 1, 1, 1, (0, 0, 0), None)], -1),
+        ("a single one-character name, old firmware, more to come", minver - 1, INS, [(7, "X", 0x00C4, 1, 1, 1, (0, 0, 0), None)], 8),
+        ("one-character name last, current firmware", minver, SUCCESS, [(3, "Pump", 0x00C3, 1, 1, 1, (0, 0, 0), 1), (4, "N", 0x00C4, 1, 1, 1, (0, 0, 0), 0)], -1),
     ):
         data = b"".join(record(*r) for r in recs)
         out = []
@@ -1272,6 +1275,80 @@ def _codec_purity(ctx):
     ctx.ok("codec-purity#census", None, f"{n} codec methods, none mutates state reached through cls / self", methods=n)
 
 
+def _factory_impurities(fn, module_names):
+    """Statements of a class factory (outside the class it defines and outside nested functions) that return something other than
+    the class just defined (or an instance of it), or that write module-level state."""
+    cds = [s_ for s_ in fn.body if isinstance(s_, ast.ClassDef)]
+    if len(cds) != 1:
+        return None
+    cname = cds[0].name
+    last = fn.body[-1]
+    rv = last.value if isinstance(last, ast.Return) else None
+    if not ((isinstance(rv, ast.Name) and rv.id == cname) or (isinstance(rv, ast.Call) and isinstance(rv.func, ast.Name) and rv.func.id == cname)):
+        return None
+    out = []
+    local = {a.arg for a in fn.args.args + fn.args.kwonlyargs} | ({fn.args.vararg.arg} if fn.args.vararg else set()) | ({fn.args.kwarg.arg} if fn.args.kwarg else set())
+
+    def visit(n):
+        for ch in ast.iter_child_nodes(n):
+            if isinstance(ch, (ast.FunctionDef, ast.AsyncFunctionDef, ast.ClassDef, ast.Lambda)):
+                continue
+            if isinstance(ch, ast.Return):
+                v = ch.value
+                if not ((isinstance(v, ast.Name) and v.id == cname) or (isinstance(v, ast.Call) and isinstance(v.func, ast.Name) and v.func.id == cname)):
+                    out.append((ch, f"returns `{ast.unparse(v) if v is not None else None}` instead of the class it defines: the result no longer depends on this call's arguments alone"))
+            if isinstance(ch, (ast.Global, ast.Nonlocal)):
+                out.append((ch, f"declares {', '.join(ch.names)} global"))
+            if isinstance(ch, (ast.Assign, ast.AugAssign, ast.AnnAssign)):
+                for t in (ch.targets if isinstance(ch, ast.Assign) else [ch.target]):
+                    base = t
+                    while isinstance(base, (ast.Subscript, ast.Attribute)):
+                        base = base.value
+                    if isinstance(t, (ast.Subscript, ast.Attribute)) and isinstance(base, ast.Name) and base.id in module_names and base.id not in local:
+                        out.append((ch, f"writes module-level `{base.id}` (`{ast.unparse(t)}`): classes made for one argument set become visible to calls with another"))
+                    if isinstance(t, ast.Name):
+                        local.add(t.id)
+            if isinstance(ch, ast.Call) and isinstance(ch.func, ast.Attribute) and isinstance(ch.func.value, ast.Name) and ch.func.value.id in module_names and ch.func.value.id not in local \
+                    and ch.func.attr in ("append", "extend", "update", "setdefault", "add", "insert", "pop", "clear", "remove", "popitem"):
+                out.append((ch, f"mutates module-level `{ch.func.value.id}` through .{ch.func.attr}()"))
+            visit(ch)
+
+    visit(fn)
+    return out
+
+
+def _factory_purity(ctx):
+    """Class factories (Struct, Array, StructTag, FixedSizeString, n_bytes: a module-level function that defines one class and
+    returns it) return the class they have just built from their arguments and write no module-level state - so two calls with
+    different element types, members or sizes can never be handed one another's class (a cache keyed by anything coarser than the
+    arguments themselves aliases distinct types).  Expected count zero; a synthetic caching factory is the positive control."""
+    ctl = ast.parse("_seen = {}\ndef Make(n):\n    k = str(n)\n    if k in _seen:\n        return _seen[k]\n    class Made:\n        size = n\n    _seen[k] = Made\n    return Made\n")
+    hits = _factory_impurities(ctl.body[1], {"_seen", "Make"})
+    if hits is None or len(hits) != 2:
+        ctx.undecided("factory-purity#positive-control", None, f"the positive control matched {None if hits is None else len(hits)} of 2 impurities")
+        return
+    ctx.ok("factory-purity#positive-control", None, "the positive control (a factory that returns a cached class and fills the cache) is detected")
+    n = 0
+    for key, fi in sorted(ctx.model.functions.items()):
+        rel = fi.module.relpath.replace("\\", "/")
+        if fi.cls is not None or "." in fi.qualname or not rel.endswith(("cip/data_types.py", "custom_types.py")):
+            continue
+        probs = _factory_impurities(fi.node, set(fi.module.symbols))
+        if probs is None:
+            continue
+        n += 1
+        if probs:
+            for node, what in probs[:3]:
+                ctx.violation(ckey(fi, f"factory-impure:{type(node).__name__}"), node, f"class factory {fi.qualname} {what}")
+        else:
+            ctx.ok(ckey(fi, "factory-pure"), fi.node, f"{fi.qualname} returns the class it defines and writes no module-level state")
+    if n < 3:
+        ctx.undecided("factory-purity#census", None, f"only {n} class factories found")
+
+
+rule("C06", "D6.17", "T-WHO", floor=4)(_factory_purity)
+rule("C07", "D7.13", "T-WHO", floor=4)(_factory_purity)
+rule("C01", "D1.22", "T-WHO", floor=4)(_factory_purity)
 rule("C02", "D2.14", "T-WHO", floor=2)(_codec_purity)
 rule("C06", "D6.11", "T-WHO", floor=2)(_codec_purity)
 rule("C07", "D7.9", "T-WHO", floor=2)(_codec_purity)
@@ -1448,9 +1525,12 @@ def d1_19(ctx):
             ctx.check(kind == "return" and isinstance(res, tuple) and len(res) == 2 and res[0] == want and res[1] is req, key, fn, f"{label} -> {want}", f"send({label}) gives {kind} {res!r}; expected the request handed to the {want} sender")
     trs = ctx.model.func(f"{LX}:_tag_return_size")
     dint = ctx.folder.eval(ast.parse("DataTypes['DINT'].size", mode="eval").body, lx.module)
-    for label, td, want in (("atomic DINT x 3", {"tag_info": {"tag_type": "atomic", "data_type": "DINT"}, "elements": 3}, (dint or 4) * 3),
+    for label, td, want in (("BOOL-array slice far into the array (126 DWORDs read for 64 BOOLs)", {"tag_info": {"tag_type": "atomic", "data_type": "DWORD", "data_type_name": "DWORD"}, "elements": 126, "bool_elements": 64, "bit": 0}, 504),
+                            ("whole BOOL array of 3 DWORDs", {"tag_info": {"tag_type": "atomic", "data_type": "DWORD", "data_type_name": "DWORD"}, "elements": 3, "bool_elements": 96, "bit": None}, 12),
+                            ("atomic DINT x 3", {"tag_info": {"tag_type": "atomic", "data_type": "DINT"}, "elements": 3}, (dint or 4) * 3),
                             ("atomic LREAL x 1", {"tag_info": {"tag_type": "atomic", "data_type": "LREAL"}, "elements": 1}, 8),
                             ("structure of 88 bytes x 2", {"tag_info": {"tag_type": "struct", "data_type": {"template": {"structure_size": 88}}}, "elements": 2}, 176)):
+        td = dict({"bool_elements": None, "bit": None}, **td)  # (a parsed request always carries both keys)
         kind, res = run_function(ctx, trs.module, trs.node, {trs.node.args.args[0].arg: td}, deep=False)
         _report(ctx, ckey(trs, f"witness:{label}"), trs.node, label, (kind, res), ("return", want), "_tag_return_size")
     gai = ctx.model.func("pycomm3.util:get_array_index")
@@ -1459,6 +1539,15 @@ def d1_19(ctx):
         if kind == "return" and isinstance(res, list):
             res = tuple(res)
         _report(ctx, ckey(gai, f"witness:{tag}"), gai.node, tag, (kind, res), ("return", want), "get_array_index")
+
+
+def _constructed(ctx, ci, *args):
+    """A witness segment made by folding the class's own constructor (so a constructor that forgets a field is seen); falls back
+    to None when the constructor is not foldable."""
+    from ..miniinterp import fold_object
+
+    kind, o = fold_object(ctx, ci, list(args))
+    return o if kind == "return" and isinstance(o, Obj) else None
 
 
 def _bytes_and_symbol_rule(ctx):
@@ -1470,12 +1559,16 @@ def _bytes_and_symbol_rule(ctx):
     fn = ds.methods["_encode"]
     for name, want in (("abc", b"\x91\x03abc\x00"), ("ab", b"\x91\x02ab"), ("Program:MainProgram", b"\x91\x13Program:MainProgram\x00"), ("T", b"\x91\x01T\x00")):
         cls = Obj(_ci=ds, _is_class=True)
-        kind, res = run_function(ctx, ds.module, fn, {fn.args.args[0].arg: cls, fn.args.args[1].arg: Obj(data=name), **({fn.args.args[2].arg: False} if len(fn.args.args) > 2 else {})}, deep=False)
+        seg_ = _constructed(ctx, ds, name)
+        if seg_ is None:
+            ctx.undecided(ckey(ds.key + "._encode", f"witness:{name}"), fn, f"DataSegment({name!r}) is not constructible by folding its constructor")
+            continue
+        kind, res = run_function(ctx, ds.module, fn, {fn.args.args[0].arg: cls, fn.args.args[1].arg: seg_, **({fn.args.args[2].arg: False} if len(fn.args.args) > 2 else {})}, deep=False)
         res = bytes(res) if isinstance(res, bytearray) else res
         _report(ctx, ckey(ds.key + "._encode", f"witness:{name}"), fn, f"symbol {name!r}", (kind, res), ("return", want), "DataSegment._encode")
     # data that is not text: the plain data segment type (no extended-symbol bit) and the data as they are, last
     for raw in (b"\x01\x02\x03\x04", b"\x07\x08"):
-        kind, res = run_function(ctx, ds.module, fn, {fn.args.args[0].arg: Obj(_ci=ds, _is_class=True), fn.args.args[1].arg: Obj(data=raw), **({fn.args.args[2].arg: False} if len(fn.args.args) > 2 else {})}, deep=False)
+        kind, res = run_function(ctx, ds.module, fn, {fn.args.args[0].arg: Obj(_ci=ds, _is_class=True), fn.args.args[1].arg: _constructed(ctx, ds, raw) or Obj(data=raw), **({fn.args.args[2].arg: False} if len(fn.args.args) > 2 else {})}, deep=False)
         res = bytes(res) if isinstance(res, bytearray) else res
         key = ckey(ds.key + "._encode", f"witness:raw:{raw.hex()}")
         if kind == "unknown":
@@ -1552,7 +1645,8 @@ def _fixedstring_rule(ctx, allow_refusal=False):
         if missing:
             ctx.violation(ckey(fs.key, f"class-attributes:{label}"), fs.node, f"FixedSizeString's codec reads cls.{missing} but the generated class does not define it")
             continue
-        for value, kept in (("abc", "abc"), ("", ""), ("abcdef", "abcdef"), ("abcdefgh", "abcdef")):
+        # (the length prefix governs: NUL characters inside it are characters, also when the string fills its capacity)
+        for value, kept in (("abc", "abc"), ("", ""), ("abcdef", "abcdef"), ("abcdefgh", "abcdef"), ("abcd\x00\x00", "abcd\x00\x00"), ("a\x00", "a\x00"), ("\x00" * 6, "\x00" * 6)):
             env = {enc.args.args[0].arg: c, enc.args.args[1].arg: value}
             if enc.args.vararg:
                 env[enc.args.vararg.arg] = ()
@@ -1926,6 +2020,50 @@ rule("C16", "D16.10", "T-WITNESS", floor=12)(_identity_rule)
 rule("C06", "D6.16", "T-WITNESS", floor=12)(_identity_rule)
 
 
+@rule("C05", "D5.20", "T-WITNESS", floor=6)
+def d5_20(ctx):
+    """LogixDriver._initialize_driver folded on witness identities (identity / info / name / tag-list requests are witness
+    callables): a Micro800 (catalog prefix 2080) gets no instance addressing, no name request, and the trailing backplane segment of
+    its route stripped (a route that is empty or ends in something else is left alone); any other controller keeps its route, is
+    asked for its name, and uses instance addressing from major revision 21; the tag list is uploaded only when asked for, with
+    every program ('*') only when program tags are asked for too."""
+    lx = _lx(ctx)
+    fn = lx.methods["_initialize_driver"]
+    ps = ctx.model.cls("pycomm3.cip.data_types:PortSegment")
+    seg = lambda: Obj(_ci=ps, port="bp", link_address=0)  # noqa: E731
+    p = [a.arg for a in fn.args.args]
+    cases = [
+        ("ControlLogix v32, tags and program tags", "1756-L83E/B", 32, "seg", True, True, dict(micro=False, ids=True, name=1, route=1, tag_list=[{"program": "*"}])),
+        ("ControlLogix v32, controller tags only", "1756-L83E/B", 32, "seg", True, False, dict(micro=False, ids=True, name=1, route=1, tag_list=[{"program": None}])),
+        ("ControlLogix v32, no tag upload", "1756-L83E/B", 32, "seg", False, True, dict(micro=False, ids=True, name=1, route=1, tag_list=[])),
+        ("ControlLogix v21 (first with instance ids)", "1756-L61", 21, "seg", False, False, dict(micro=False, ids=True, name=1, route=1, tag_list=[])),
+        ("ControlLogix v20", "1756-L61", 20, "seg", False, False, dict(micro=False, ids=False, name=1, route=1, tag_list=[])),
+        ("controller without a route", "1769-L33ER", 30, "none", False, False, dict(micro=False, ids=True, name=1, route=0, tag_list=[])),
+        ("Micro800 with the auto backplane segment", "2080-LC50-48QWB", 30, "seg", True, True, dict(micro=True, ids=False, name=0, route=0, tag_list=[{"program": "*"}])),
+        ("Micro800 without a route", "2080-LC20-20QBB", 30, "none", False, False, dict(micro=True, ids=False, name=0, route=0, tag_list=[])),
+        ("Micro800 whose route ends in raw bytes", "2080-LC50-48QWB", 30, "bytes", False, False, dict(micro=True, ids=False, name=0, route=1, tag_list=[])),
+        ("Micro800 behind two segments", "2080-LC50-48QWB", 30, "two", False, False, dict(micro=True, ids=False, name=0, route=1, tag_list=[])),
+    ]
+    for label, product, major, route, init_tags, init_prog, want in cases:
+        names, lists = [], []
+        path = {"seg": [seg()], "none": [], "bytes": [b"\x01\x00"], "two": [seg(), seg()]}[route]
+        me = _me(_cfg={"cip_path": path}, _info={}, _micro800=None,
+                 _list_identity=PyFunc(lambda: {"product_name": product, "vendor": "Rockwell"}, "_list_identity"),
+                 get_plc_info=PyFunc(lambda: {"revision": {"major": major, "minor": 1}, "product_name": product}, "get_plc_info"),
+                 get_plc_name=PyFunc(lambda: names.append(1) or "PLC", "get_plc_name"),
+                 get_tag_list=PyFunc(lambda *a, **k: lists.append(dict(k, **({"program": a[0]} if a else {}))) or [], "get_tag_list"))
+        kind, res = run_function(ctx, lx.module, fn, {"self": me, p[1]: init_tags, p[2]: init_prog}, deep=False)
+        key = ckey(lx.key + "._initialize_driver", f"witness:{label}")
+        if kind == "unknown":
+            ctx.undecided(key, fn, f"_initialize_driver not foldable on {label}: {res}")
+            continue
+        got = dict(micro=bool(me._micro800), ids=me._cfg.get("use_instance_ids"), name=len(names), route=len(me._cfg["cip_path"]), tag_list=[{"program": l_.get("program")} for l_ in lists])
+        ctx.check(kind == "return" and got == want, key, fn, f"{label}: {want}", f"_initialize_driver on {label} gives {kind} {res!r} with {got!r}; expected {want!r} (micro = Micro800 detected, ids = instance addressing, name = name requests, route = segments left, tag_list = uploads)", witness=label)
+
+
+rule("C15", "D15.13", "T-WITNESS", floor=6)(d5_20)
+
+
 # ---------------------------------------------------------------------------------------------------------------- socket framing
 def _socket_rule(ctx):
     """Socket.receive and Socket.send folded on witness TCP segmentations (the OS socket is a marker that hands out what is left of
@@ -2074,7 +2212,7 @@ def _segment_rule(ctx):
         ((b"\x01", "class_id"), True, b"\x20\x01"), ((b"\x2c\x01", "instance_id"), True, b"\x25\x00\x2c\x01"), ((b"\x2c\x01", "instance_id"), False, b"\x25\x2c\x01"),
     ]
     for (val, typ), padded, want in lcases:
-        kind, res = run_function(ctx, ls.module, fn, {pnames[0]: Obj(_ci=ls, _is_class=True), pnames[1]: Obj(logical_value=val, logical_type=typ), pnames[2]: padded}, deep=False)
+        kind, res = run_function(ctx, ls.module, fn, {pnames[0]: Obj(_ci=ls, _is_class=True), pnames[1]: _constructed(ctx, ls, val, typ) or Obj(logical_value=val, logical_type=typ), pnames[2]: padded}, deep=False)
         res = bytes(res) if isinstance(res, bytearray) else res
         _report(ctx, ckey(ls.key + "._encode", f"witness:{val!r}:{typ}:{'padded' if padded else 'packed'}"), fn, f"logical segment {typ} {val!r} ({'padded' if padded else 'packed'})", (kind, res), ("return", want), "LogicalSegment._encode")
     for (val, typ), label in (((0x1_0000_0000, "instance_id"), "a value above 32 bits"), ((5, "no_such_type"), "an unknown logical type"), ((b"\x01\x02\x03", "instance_id"), "a 3-byte value")):
@@ -2113,7 +2251,7 @@ def _segment_rule(ctx):
         (("enet", "1.2.3.44"), b"\x12\x081.2.3.44"), (("dhrio-b", 255), b"\x03\xff"), (("dhrio-a", 1), b"\x02\x01"), (("dh485-b", 1), b"\x03\x01"), (("dnet", 2), b"\x02\x02"), ((14, 1), b"\x0e\x01"), ((1, b"\x01\x02"), b"\x11\x02\x01\x02"), (("cnet", "9"), b"\x02\x09"),
     ]
     for (port, link), want in pcases:
-        kind, res = run_function(ctx, ps.module, fn, {pnames[0]: Obj(_ci=ps, _is_class=True), pnames[1]: Obj(port=port, link_address=link), pnames[2]: False}, call_hook=ip_hook, deep=False)
+        kind, res = run_function(ctx, ps.module, fn, {pnames[0]: Obj(_ci=ps, _is_class=True), pnames[1]: _constructed(ctx, ps, port, link) or Obj(port=port, link_address=link), pnames[2]: False}, call_hook=ip_hook, deep=False)
         res = bytes(res) if isinstance(res, bytearray) else res
         _report(ctx, ckey(ps.key + "._encode", f"witness:{port!r}:{link!r}"), fn, f"port segment {port!r} / {link!r}", (kind, res), ("return", want), "PortSegment._encode")
     for (port, link), label in (((15, 1), "port 15"), ((0, 1), "port 0"), ((16, 1), "port 16"), ((17, 1), "port 17 (would set the extended-link bit)"), ((31, 1), "port 31"), ((-1, 1), "port -1"), ((255, 1), "port 255"), (("bp", 300), "link 300"), (("bp", "300"), "link '300'"), (("enet", "not-an-address"), "a text link that is no IP address"), (("nonsense", 1), "an unknown port name"), (("enet-b", 1), "a channel suffix on a single-channel port"), (("bp-a", 1), "a channel suffix on the backplane"), (("dhrio", 1), "a two-channel module without its channel"),
@@ -2808,27 +2946,38 @@ def _module_info_rule(ctx):
             return ("identity", it.ev(call.args[0], env))
         return UNKNOWN
 
-    for label, valid in (("valid reply", True), ("failed reply", False)):
-        seen = {}
-        gm = self_call("generic_message", lambda a, k, seen=seen, valid=valid: seen.update(k) or _resp(valid, value=b"<raw identity>" if valid else None, error=None if valid else "Path destination unknown"))
-        me = Obj(_ci=cd, _cfg={"cip_path": ["<hop1>", "<hop2>", "<last hop>"]})
-        kind, res = run_function(ctx, cd.module, fn, {"self": me, fn.args.args[1].arg: 3}, call_hook=chain(hook, gm), deep=False)
-        key = ckey(cd.key + ".get_module_info", f"witness:{label}")
-        if kind == "unknown":
-            ctx.undecided(key, fn, f"get_module_info not foldable on a {label}: {res}")
-            continue
-        if not valid:
-            ctx.check((kind, res) == ("raise", "ResponseError"), key, fn, "failed reply: ResponseError", f"get_module_info with a failed reply: {kind} {res!r}")
-            continue
-        want_route = ("EPATH", ("<hop1>", "<hop2>", ("P", "bp", 3)), True, True)
-        req_ok = seen.get("service") == ev("Services.get_attributes_all") and seen.get("class_code") == ev("ClassCode.identity_object") and seen.get("instance") in (1, b"\x01") and seen.get("connected") is False \
-            and seen.get("unconnected_send") is True and seen.get("route_path") == want_route
-        kept = me._cfg["cip_path"] == ["<hop1>", "<hop2>", "<last hop>"]
-        ctx.check((kind, res) == ("return", ("identity", b"<raw identity>")) and req_ok and kept, key, fn, "valid reply: decoded identity of slot 3 over the connection's path with the last hop replaced; the driver's own path is left alone",
-                  (f"get_module_info(3): {kind} {res!r}; request {dict((k, v) for k, v in seen.items() if k != 'name')!r} (expected route {want_route!r})" if kept else
-                   f"get_module_info(3) changes the driver's own connection path to {me._cfg['cip_path']!r}: every later request routed over the connection path goes to the module"))
+    ps = ctx.model.cls("pycomm3.cip.data_types:PortSegment")
+    hop = lambda port, link: _constructed(ctx, ps, port, link) or Obj(_ci=ps, port=port, link_address=link)  # noqa: E731
+    paths = [("three hops, the last by name", [hop("bp", 1), hop("enet", "10.11.12.13"), hop("bp", 0)]), ("the last hop by number", [hop("enet", "10.0.0.9"), hop(1, "0")]),
+             ("a single numeric hop", [hop(1, "2")]), ("a single named hop", [hop("backplane", 0)]), ("the last hop is a network hop", [hop("bp", 1), hop(2, "10.11.12.13")])]
+    for plabel, path in paths:
+        for label, valid in (("valid reply", True), ("failed reply", False)):
+            seen = {}
+            gm = self_call("generic_message", lambda a, k, seen=seen, valid=valid: seen.update(k) or _resp(valid, value=b"<raw identity>" if valid else None, error=None if valid else "Path destination unknown"))
+            me = Obj(_ci=cd, _cfg={"cip_path": list(path)})
+            kind, res = run_function(ctx, cd.module, fn, {"self": me, fn.args.args[1].arg: 3}, call_hook=chain(hook, gm), deep=False)
+            key = ckey(cd.key + ".get_module_info", f"witness:{plabel}:{label}")
+            if kind == "unknown":
+                ctx.undecided(key, fn, f"get_module_info not foldable on a {label} ({plabel}): {res}")
+                continue
+            if not valid:
+                ctx.check((kind, res) == ("raise", "ResponseError"), key, fn, "failed reply: ResponseError", f"get_module_info with a failed reply: {kind} {res!r}")
+                continue
+            rp = seen.get("route_path")
+            segs = rp[1] if isinstance(rp, tuple) and len(rp) == 4 and rp[0] == "EPATH" else None
+            route_ok = segs is not None and rp[2:] == (True, True) and len(segs) == len(path) and all(a_ is b_ for a_, b_ in zip(segs[:-1], path[:-1])) and segs[-1] == ("P", "bp", 3)
+            req_ok = seen.get("service") == ev("Services.get_attributes_all") and seen.get("class_code") == ev("ClassCode.identity_object") and seen.get("instance") in (1, b"\x01") and seen.get("connected") is False \
+                and seen.get("unconnected_send") is True and route_ok
+            kept = len(me._cfg["cip_path"]) == len(path) and all(a_ is b_ for a_, b_ in zip(me._cfg["cip_path"], path))
+            show = lambda x: [(getattr(s_, "port", None), getattr(s_, "link_address", None)) if isinstance(s_, Obj) else s_ for s_ in (x or [])]  # noqa: E731
+            ctx.check((kind, res) == ("return", ("identity", b"<raw identity>")) and req_ok and kept, key, fn, f"{plabel}: decoded identity of slot 3 over the connection's path with the last hop replaced by backplane / 3; the driver's own path is left alone",
+                      (f"get_module_info(3) over {show(path)}: {kind} {res!r}; route {show(segs)} with length / reserved byte {rp[2:] if segs is not None else rp!r} (expected {show(path[:-1])} + backplane slot 3, both flags set); request "
+                       f"{dict((k, v) for k, v in seen.items() if k not in ('name', 'route_path'))!r}" if kept else
+                       f"get_module_info(3) changes the driver's own connection path to {show(me._cfg['cip_path'])}: every later request routed over the connection path goes to the module"))
 
 
 rule("C14", "D14.10", "T-WITNESS", floor=12)(_generic_message_rule)
 rule("C14", "D14.11", "T-WITNESS", floor=2)(_module_info_rule)
 rule("C16", "D16.9", "T-WITNESS", floor=2)(_module_info_rule)
+rule("C09", "D9.12", "T-WITNESS", floor=6)(_module_info_rule)
+rule("C15", "D15.14", "T-WITNESS", floor=6)(_module_info_rule)
